@@ -13,6 +13,7 @@ import json
 import re
 
 import c15_corpus as C
+import c15_inside as IN
 import c15_layout as L
 import c15_model as M
 import c15_tokcases as TC
@@ -48,10 +49,24 @@ def test_suite_inputs():
     return out, None
 
 
-def build_corpus(rng, tier):
+def fix_probes():
+    """which fixes of recorded defects does this tree have (canonical inputs, c15_inside.FIX_PROBES)?"""
+    names = sorted(IN.FIX_PROBES)
+    res = compile_batch([dict(src=IN.FIX_PROBES[n][0], cert=C.FULL_CERT) for n in names], chunk=10)
+    out = {}
+    for n, r in zip(names, res):
+        text = "\n".join(v for k, v in sorted(r.get("files", {}).items()) if k.endswith(".mcfunction")) if r["ok"] else ""
+        out[n] = bool(r["ok"] and IN.FIX_PROBES[n][1](text))
+    return out
+
+
+def build_corpus(rng, tier, enabled=()):
     progs, note = test_suite_inputs()
     for s in C.single_statement_programs():
         progs.append(dict(src=s, header=None, cert=C.FULL_CERT, origin="statement"))
+    for e in IN.programs(C.PRELUDE, set(enabled)):
+        progs.append(dict(src=e["src"], header=None, cert=C.FULL_CERT, origin="inside-brackets", kind=e["kind"], needs=e["needs"],
+                          marks=e["marks"], no_comments=e["no_comments"]))
     for _ in range(30 if tier == "quick" else 300):
         progs.append(dict(src=C.gen_program(rng, rng.randint(1, 4)), header=None, cert=C.FULL_CERT, origin="generated"))
     return progs, note
@@ -245,6 +260,11 @@ def known_class(p, base_res, changed, src, res, plain=None):
     pos = run_offset(segs, k) + run.find("//")      # offset of the comment in the re-laid-out text
     for f in known_entries():
         m = f.get("match", {})
+        if (m.get("where") == "comment-mentions-hardcode-calc" and "Hardcode.calc" in run and res["exc"] in m.get("exc", [])
+                and any(s in res["msg"] for s in m.get("msg_contains", [""]))):
+            return f
+    for f in known_entries():
+        m = f.get("match", {})
         if res["exc"] in m.get("exc", []) and any(s in res["msg"] for s in m.get("msg_contains", [""])):
             if m.get("where") == "json-body" and in_json_body(src, pos):
                 return f
@@ -376,6 +396,8 @@ def metamorphic(ck, progs, rng, tier, stats):
     jobs, meta = [], []
     for i in accepted:
         for name, f in lay.items():
+            if progs[i].get("no_comments") and name in IN.COMMENT_LAYOUTS:
+                continue          # a recorded defect about comments at this place; the fix is not in this tree
             try:
                 src = f(progs[i]["src"])
             except AssertionError:
@@ -411,6 +433,20 @@ def metamorphic(ck, progs, rng, tier, stats):
                                                                accepted_after_relayout=len(done))
 
 
+def inside_cov(progs, accepted):
+    """per bracket kind: statements in the corpus, accepted, and layout-run places inside brackets (x layouts each)"""
+    acc = set(accepted)
+    out = {}
+    for i, p in enumerate(progs):
+        if p.get("origin") == "inside-brackets":
+            d = out.setdefault(p["kind"], dict(statements=0, accepted=0, places_inside_brackets=0))
+            d["statements"] += 1
+            if i in acc:
+                d["accepted"] += 1
+                d["places_inside_brackets"] += p.get("marks", 0)
+    return out
+
+
 def main(tier: str) -> int:
     ck = Check(PROP, tier)
     ck.cov["trusted_base"] = COMMON_TRUSTED + [
@@ -424,8 +460,15 @@ def main(tier: str) -> int:
     ]
     pr = ck.proof(extra_targets=["Run/C15.vo"])
 
-    progs, note = build_corpus(ck.rng, tier)
+    fixes = fix_probes()
+    known_ids = {f.get("id") for f in known_entries()}
+    demand = os.environ.get("VERIF_C15_DEMAND") == "1"
+    enabled = {n for n in fixes if fixes[n] or demand or IN.FINDING_OF[n] in known_ids}
+    progs, note = build_corpus(ck.rng, tier, enabled)
     lstats = {}
+    if "C15-hardcode-calc-mention-in-comment" in known_ids or demand:
+        # a comment that MENTIONS `Hardcode.calc(` with other text, inside a Hardcode.* / @lazy body (recorded defect)
+        L.NASTY_COMMENTS["code_like"] = L.NASTY_COMMENTS["code_like"] + ["see Hardcode.calc(x)"]
     base, accepted, npairs, failing, layout_names, sym = metamorphic(ck, progs, ck.rng, tier, lstats)
 
     # ---- classify differing pairs
@@ -477,6 +520,24 @@ def main(tier: str) -> int:
             kf = known_class(progs[i], base[i], {k: run}, msrc, single, plain=plain)
             if kf:
                 pre_known[oi] = kf
+    # inventory statements that are in the corpus only because their recorded defect is LISTED (fix missing): a pair is
+    # explained by the finding if the defect is about everything in that bracket, or (comments only) if the same
+    # re-layout with all its comments removed gives the base output.  One batch.
+    gated = []
+    for oi, (rank, (i, name, src, r)) in enumerate(order):
+        p = progs[i]
+        if oi in pre_known or not p.get("needs") or fixes.get(p["needs"]) or IN.FINDING_OF[p["needs"]] not in known_ids:
+            continue
+        al = L.aligned_segments(p["src"], src)
+        if al is None:
+            continue
+        new = [t for k, t in al[1] if k == "lay"]
+        gated.append((oi, apply_runs(al[0], {k: strip_comments_run(t) for k, t in enumerate(new)})))
+    gres = compile_batch([job_of(progs[order[oi][1][0]], text) for oi, text in gated], chunk=40)
+    for (oi, _), g in zip(gated, gres):
+        p = progs[order[oi][1][0]]
+        if IN.SCOPE[p["needs"]] == "all" or same_result(base[order[oi][1][0]], g):
+            pre_known[oi] = next(f for f in known_entries() if f.get("id") == IN.FINDING_OF[p["needs"]])
     for oi, (rank, (i, name, src, r)) in enumerate(order):
         p = progs[i]
         if oi in pre_known:
@@ -490,6 +551,11 @@ def main(tier: str) -> int:
         if mres is None:
             changed, msrc, mres = None, src, r
         kf = known_class(p, base[i], changed, msrc, mres)
+        if kf is None and p.get("needs") and not fixes.get(p["needs"]):
+            # an inventory statement that is in the corpus only because its recorded defect is LISTED
+            want = IN.FINDING_OF[p["needs"]]
+            if IN.SCOPE[p["needs"]] == "all" or any("//" in v for v in (changed or {}).values()):
+                kf = next((f for f in known_entries() if f.get("id") == want), None)
         if kf:
             ck.known(kf["id"], kf["what"])
             known_n += 1
@@ -543,7 +609,8 @@ def main(tier: str) -> int:
              "comment-behind-every-token grammar)",
         programs=len(progs), accepted_programs=len(accepted), accepted_by_origin=origins, relayout_pairs=npairs,
         layouts=layout_names, comments_glued_behind=lstats.get("glued_after"), comment_content_classes=lstats.get("content"),
-        file_frames=lstats.get("frames"), symmetric_check=sym, differing_pairs=len(failing), differing_by_layout=per_layout, known_pairs=known_n,
+        file_frames=lstats.get("frames"), symmetric_check=sym, differing_pairs=len(failing),
+        inside_brackets=inside_cov(progs, accepted), fixes_present=fixes, gated_entries_enabled=sorted(enabled), differing_by_layout=per_layout, known_pairs=known_n,
         disagreements_checked=len(failing), corpus_note=note, model_tie=info, model_pairs_evaluated=n_pairs_model,
         samples=[dict(base=progs[i]["src"][:200]) for i in accepted[:2]],
     ))
